@@ -54,6 +54,9 @@ CLAIMED = {
  "C12": dict(engine="tlv", design="4 C12", technique="TLA+ layout oracle (Tlv: covered and digested byte ranges per shape) with TLC-enumerated shapes; signer input, parser's covered bytes, validator verdicts and single-bit tampering outcomes of the real code validated by TLC",
    text="For every TLC-drawn shape and every shipped signer the ranges found in the produced bytes must equal the oracle's SigCovered/DigestCovered ranges, the signer must have been handed exactly those bytes, the parser (contiguous and four-segment presentation) must return exactly those bytes, the matching validator must accept, and flipping single bits inside the signed portion, the signature value or the parameters must lead to a decode error or a rejection. Open finding F33 (type byte of ApplicationParameters) is matched by signature.",
    note="Cryptographic strength is trusted (crypto/*); tamper positions are confined to the regions the statement names. " + TB),
+ "C14": dict(engine="tlv", design="4 C14", technique="TLA+ spec (NameOrder: canonical order) proved a total order by TLC on an enumerated universe; the real name comparison / equality / prefix / hash / URI functions evaluated on that universe and judged by TLC",
+   text="TLC enumerates names adversarially close to each other (one byte, one length, one type apart, prefix-related, all 256 byte values) and parser inputs over separators and escapes, proves that NameCmp is a total order (antisymmetry, transitivity, prefix-first) on the universe, and the observations of the real Compare/Equal/IsPrefix/Hash/PrefixHash/Bytes/String/NameFromStr on names, pairs and strings are validated against NameOrder in one TLC pass.",
+   note="Universe bounded to 3 components / 3-byte values; URI round trip required only for types 1..65535 with shortest-form numbers. " + TB),
 }
 NOT_YET = "check not yet built in this commit (work in progress; see DESIGN.md section 4)"
 NA = {}
